@@ -517,7 +517,8 @@ EXPECT = ["C15.maxstep.every_component_of_an_inserted_point_repeats_its_own_pred
 
 
 def main(tier):
-    bounds = {"dates": "<= 2 (quick) / 3 (thorough) product dates, symbolic", "jumps": "jump-time mode: (dates, jumps per interval) <= (1,2), (2,2) quick; plus (1,4), (3,1) thorough; fixed-date mode <= 2 jumps per interval; "
+    bounds = {"histories_and_variants": 'path.value() read twice; chain simulator at jump times: <= 2 (quick) / 3 product-date intervals, 0..2 jumps each, scripted increments',
+              "dates": "<= 2 (quick) / 3 (thorough) product dates, symbolic", "jumps": "jump-time mode: (dates, jumps per interval) <= (1,2), (2,2) quick; plus (1,4), (3,1) thorough; fixed-date mode <= 2 jumps per interval; "
               "<= 2/3 jump times for the refinement, every gap below 3 epsilon",
               "outside": "copula and coupled simulators' path assembly (same helpers; their jump values are C01/C03), float rounding of cumulative sums"}
     return run_check(PID, tier, harnesses(tier), expect=EXPECT, bounds=bounds,
